@@ -162,7 +162,7 @@ def build(job):
     workload = make_workload(job["wl"])
     mon = ReplayMonitor(deep=job.get("deep", True))
     ex = Explorer(w, workload, [mon], job.get("budget"), max_states=job.get("max_states", 150000),
-                  time_cap=job.get("time_cap", 1200))
+                  time_cap=job.get("time_cap", 600))
     ex._replay_mon = mon
     return ex
 
